@@ -28,6 +28,7 @@ fn main() {
         "c19_length_delimited" => c19_length_delimited(&mut nd),
         "c04_varint_receive" => c04_varint_receive(&mut nd),
         "c04_sink_flush" => c04_sink_flush(&mut nd),
+        "c09_keep_alive" => c09_keep_alive(&mut nd),
         "c11_notification_protocol" => c11_notification_protocol(&mut nd),
         "c19_kademlia_message" => c19_kademlia_message(&mut nd),
         "c13_request_flight" => c13_request_flight(&mut nd),
